@@ -81,13 +81,14 @@ def finite_language(pattern, flags=0, limit=64):
 
 
 def matches_exactly_line_endings(pattern):
-    """True iff the pattern matches LF and CR LF (optionally a lone CR) and nothing else."""
+    """True iff the pattern matches exactly LF and CR LF."""
     lang = finite_language(pattern)
     if lang is None:
         return False
     isb = isinstance(pattern, (bytes, bytearray))
-    lf, crlf, cr = (b'\n', b'\r\n', b'\r') if isb else ('\n', '\r\n', '\r')
-    return lf in lang and crlf in lang and lang <= {lf, crlf, cr}
+    lf, crlf = (b'\n', b'\r\n') if isb else ('\n', '\r\n')
+    # a lone CR is not a line ending for other implementations (GnuPG): converting it would change what is signed
+    return lang == {lf, crlf}
 
 
 def summary(pattern, flags=0):
